@@ -794,6 +794,10 @@ class StretchyTreeMatcher:
             # the children noting the special case when the nodes of the array are actually parameters of the node
             # (e.g. a load function) instead of a child node
             if not ignore_field:
+                if len(ins_value) > len(std_value) and any(isinstance(v, str) for v in ins_value):
+                    # A list of plain names (``global a, b``): the student's
+                    # statement does not have all of the instructor's
+                    is_match = False
                 for inssub_value, stdsub_value in zip(ins_value, std_value):
                     if not is_match:
                         break
